@@ -4,6 +4,7 @@ import (
 	"encoding/json"
 	"fmt"
 	"os"
+	"strings"
 	"testing"
 	"time"
 
@@ -205,25 +206,43 @@ func TestShrink(t *testing.T) {
 	if fn == nil {
 		t.Fatalf("no replayer for %s/%s", rp.Property, rp.Sub)
 	}
-	var c progCase
-	if err := json.Unmarshal(rp.Case, &c); err != nil {
+	// generic over case types: only the field holding the forms is shrunk
+	field := os.Getenv("VERIF_SHRINK_FIELD")
+	if field == "" {
+		field = "forms"
+	}
+	var whole map[string]json.RawMessage
+	if err := json.Unmarshal(rp.Case, &whole); err != nil {
 		t.Fatal(err)
 	}
+	var c progCase
+	if err := json.Unmarshal(whole[field], &c.Forms); err != nil {
+		t.Fatal(err)
+	}
+	build := func(pc progCase) json.RawMessage {
+		m := map[string]json.RawMessage{}
+		for k, v := range whole {
+			m[k] = v
+		}
+		fb, _ := json.Marshal(pc.Forms)
+		m[field] = fb
+		raw, _ := json.Marshal(m)
+		return raw
+	}
 	sigOf := func(pc progCase) string {
-		raw, _ := json.Marshal(pc)
-		f, err := fn(raw)
+		f, err := fn(build(pc))
 		if err != nil || f == nil {
 			return ""
 		}
 		// keep the same symptom, not just the same category
-		if o, ok := f.Observed.(string); ok && (f.Sig == "spurious-error" || f.Sig == "panic") {
+		if o, ok := f.Observed.(string); ok && (strings.HasSuffix(f.Sig, "spurious-error") || strings.HasSuffix(f.Sig, "panic")) {
 			return f.Sig + "|" + firstLine(o)
 		}
 		return f.Sig
 	}
 	small := shrinkProgram(c, sigOf)
 	fmt.Printf("SHRUNK sig=%s\n%s", sigOf(small), RenderProgram(small.Forms))
-	raw, _ := json.Marshal(small)
+	raw := build(small)
 	f, _ := fn(raw)
 	if f != nil {
 		fmt.Printf("expected: %v\nobserved: %v\n", f.Expected, f.Observed)
